@@ -485,7 +485,7 @@ func (x *Interp) signal(fr *frame, st *Stmt) {
 	site := ""
 	if class != "nonfatal" {
 		site = fmt.Sprintf("%d/%s@%s", st.Site%numSites, st.Kind, harnessStack())
-		if st.Site%numSites >= 4 {
+		if (st.Site%numSites == 4 && st.Kind == "panicString") || (st.Site%numSites == 5 && st.Kind == "panicError") {
 			site += fmt.Sprintf("line%d", (st.Site/numSites)%2) // two raising lines inside one closure
 		}
 	}
